@@ -87,7 +87,33 @@ def step(args):
                 if i != j:
                     ctx.assume(Not(dominates(S[i].costs_signed, S[j].costs_signed)))
         arch = Archive(dominance=dom)
-        arch._contents = list(S)
+        if args.get('after_truncate'):
+            # lifecycle: the pre-state is produced by the archive's own operations -- real add() of the staircase plus two
+            # further staircase members, then truncate() back to n members -- and the symbolic newcomer (which may repeat the
+            # cost vector of a member that truncate dropped) is offered afterwards.  Should the archive key a set / dict on
+            # cost values: every symbolic number hashes alike, Python falls back to == (which forks symbolically).
+            ctx.hash_hook = lambda v: 0
+            extra = []
+            for i in range(n, n + 2):
+                e = Individual([float(i), 0.5])
+                e.costs_signed = ([float(i), float(n - i)] + [1.0] * (m - 2))[:m] + [True]
+                extra.append(e)
+            x.costs_signed = list(x.costs_signed[:-1]) + [True]
+            for k, e in enumerate(S + extra):
+                e.features['f'] = float(k)
+                # pinned symbolic costs (so that they hash like the newcomer's: sound only if every key is symbolic)
+                pinned = []
+                for q, val in enumerate(e.costs_signed[:-1]):
+                    c = ctx.real('p%d_%d' % (k, q))
+                    ctx.assume(c == val)
+                    pinned.append(c)
+                e.costs_signed = pinned + [True]
+                arch.add(e)
+            arch.truncate(n, 'f')
+            S = list(arch)
+            ctx.check('truncate-keeps-n-members', len(S) != n)
+        else:
+            arch._contents = list(S)
         ret = arch.add(x)
         cont = list(arch)
         ctx.output('ret', bool(ret))
@@ -253,6 +279,8 @@ def configs(tier):
         for n in ((6, 9) if cmp_ == 'pareto' else (7,)):
             out.append({'name': 'step-staircase-n%d-m2-%s' % (n, cmp_), 'task': 'step',
                         'args': {'n': n, 'm': 2, 'cmp': cmp_, 'staircase': True}, 'weight': 40 * n, 'split': 32, 'engine': {'validate': 40}})
+        out.append({'name': 'step-after-add-and-truncate-n3-m2-%s' % cmp_, 'task': 'step',
+                    'args': {'n': 3, 'm': 2, 'cmp': cmp_, 'staircase': True, 'after_truncate': True}, 'weight': 120, 'split': 32, 'engine': {'validate': 40}})
         for n in (0, 1, 2, 3, 4):
             for m in (1, 2):
                 add_step(n, m, cmp_, split=24 if n >= 4 else None)
